@@ -103,12 +103,20 @@ class LeanBuild:
         return self.ok
 
 
-def theorem_names(prop_id: str) -> list[str]:
-    """Names of the theorems in lean/Ramses/Props/<id>.lean (fully qualified)."""
-    out = []
+def prop_files(prop_id: str) -> list:
+    """Props/<id>.lean and its continuation files Props/<id><Suffix>.lean"""
     props = LEAN / "Ramses" / "Props"
-    # Props/<id>.lean and its continuation files Props/<id><Suffix>.lean (which <id>.lean imports)
-    for path in [props / f"{prop_id}.lean"] + sorted(q for q in props.glob(f"{prop_id}?*.lean") if q.stem[len(prop_id)].isalpha()):
+    return [props / f"{prop_id}.lean"] + sorted(q for q in props.glob(f"{prop_id}?*.lean") if q.stem[len(prop_id)].isalpha())
+
+
+def prop_modules(prop_id: str) -> list[str]:
+    return [f"Ramses.Props.{q.stem}" for q in prop_files(prop_id)]
+
+
+def theorem_names(prop_id: str) -> list[str]:
+    """Names of the theorems in lean/Ramses/Props/<id>*.lean (fully qualified)."""
+    out = []
+    for path in prop_files(prop_id):
         src = path.read_text()
         ns = re.search(r"^namespace (\S+)", src, re.M)
         prefix = ns.group(1) + "." if ns else ""
@@ -139,7 +147,7 @@ def axiom_audit(prop_id: str) -> tuple[dict[str, list[str]], str]:
     audit = LEAN / ".lake" / f"Audit_{prop_id}.lean"
     audit.parent.mkdir(exist_ok=True)
     audit.write_text(
-        f"import Ramses.Props.{prop_id}\n" + "".join(f"#print axioms {n}\n" for n in names)
+"".join(f"import {m}\n" for m in prop_modules(prop_id)) + "".join(f"#print axioms {n}\n" for n in names)
     )
     p = subprocess.run(
         ["lake", "env", "lean", str(audit)], cwd=LEAN, capture_output=True, text=True, timeout=1800
@@ -262,7 +270,7 @@ class Check:
             self.build_failed = ["translator: " + (tr.stdout + tr.stderr).strip()[-300:]]
             return False
         b = LeanBuild()
-        targets = [f"Ramses.Props.{self.id}", "ramses-model"] + (extra_targets or [])
+        targets = prop_modules(self.id) + ["ramses-model"] + (extra_targets or [])
         ok = b.build(targets)
         names = theorem_names(self.id)
         self.obligations = len(names)
@@ -382,7 +390,7 @@ class Check:
         cov = {
             "obligations": self.obligations,
             "discharged": self.discharged,
-            "checker_cmd": f"cd lean && lake build Ramses.Props.{self.id} ramses-model && "
+            "checker_cmd": f"cd lean && lake build {' '.join(prop_modules(self.id))} ramses-model && "
                            f"lake env lean .lake/Audit_{self.id}.lean   # '#print axioms' of every theorem",
             "trusted_base": TRUSTED_BASE,
             "theorems": self.theorems,
